@@ -36,9 +36,9 @@ GROUPS = {"retry": "check_retry", "pool": "check_pool"}
 EXPLAIN = {"retry": "explain_retry", "pool": "explain_pool"}
 CASES = {"quick": 500, "thorough": 20000}
 RULE = ("cases: retry = RetryPolicy.Wrap (+ breaker wrapper closed / forced open) around a scripted handler "
-        "(success at attempt s, all fail, panic; cancellation injected inside attempt k; random|exponential, factor k/8, waits 1ns..5ms, "
+        "(success at attempt s, all fail, panic / runtime.Goexit / panic(nil) - the encoder presents all three to the model as 'the call does not come back'; cancellation injected inside attempt k; random|exponential, factor k/8, waits 1ns..5ms, "
         "40-100ms in front of a cancellation, 1ns with factor<1/2 for the zero-wait select race, maxAttempts 0); "
-        "pool = Proxy with one pool (retry, timeout 60-80ms, breaker with slowCallDurationThreshold 1us..5ms or default - window totals read after EVERY request, failureCodes) serving 1-5 requests with a per-attempt scripted "
+        "pool = Proxy with one pool - the main pool or a CANDIDATE pool (filter matched by the requests) next to a policy-free main pool; a share of cases uses the package's own sender over a real TCP backend that answers or reads the request and resets the connection (requests RECEIVED by the backend = attempts) (retry, timeout 60-80ms, breaker with slowCallDurationThreshold 1us..5ms or default - window totals read after EVERY request, failureCodes) serving 1-5 requests with a per-attempt scripted "
         "transport (status / network error / block until context done / panic / header in time then body breaks, stalls past the deadline or "
         "exceeds serverMaxBodySize, successful answers whose declared length is exactly serverMaxBodySize / one byte less; after each observation the response "
         "object the client got may be rewritten (status, header, payload) as a downstream filter would, optionally after another proxy failed with 503/499/408/500 and had its responses rewritten; stream bodies of declared and unknown length consumed by every attempt; client cancellation); "
@@ -85,7 +85,7 @@ def _pol(i):
 def encode(c):
     i, o = c["in"], c["obs"]
     if c["grp"] == "retry":
-        return Rec(rc_pol=_pol(i), rc_script=L([Z(x) for x in i.get("script") or []]),
+        return Rec(rc_pol=_pol(i), rc_script=L([Z(2 if x in (3, 4) else x) for x in i.get("script") or []]),  # 3 Goexit / 4 panic(nil): "does not come back" like 2
                    rc_cancel=Z(i["cancel"]), rc_cb=Z(i["cb"]),
                    rc_calls=Z(o["calls"]), rc_fkind=Z(o["fk"]), rc_fid=Z(o["fid"]),
                    rc_gaps=L([Z(x) for x in o.get("gaps") or []]), rc_tail=Z(o["tail"]),
@@ -133,6 +133,9 @@ def distribution(cases):
                 d["attempts_after_cancel_in_race"] += o["calls"] > i["cancel"] + 1
         else:
             d["breaker_cases"] += bool(i["cb"])
+            d["candidate_pool_cases"] = d.get("candidate_pool_cases", 0) + bool(i.get("cand"))
+            d["candidate_breaker_without_retry"] = d.get("candidate_breaker_without_retry", 0) + (bool(i.get("cand")) and bool(i["cb"]) and not i["retry"])
+            d["real_tcp_cases"] = d.get("real_tcp_cases", 0) + bool(i.get("tcp"))
             d["low_slow_threshold_cases"] = d.get("low_slow_threshold_cases", 0) + (bool(i["cb"]) and i.get("slow", 0) > 0)
             for rq, ou in zip(i.get("reqs") or [], o.get("outs") or []):
                 k = str(ou["calls"])
